@@ -490,7 +490,8 @@ class DependsWorld:
                 ops.append({'op': 'drain'})
             elif k == 'swap_twice':
                 ops.append({'op': 'swap_twice', 'at': rng.randint(0, cfg['pool']), 'slot': rng.choice(slots), 'n1': rng.randrange(cfg['pool']),
-                            'n2': rng.randrange(cfg['pool']), 'how1': weighted(rng, hows), 'how2': weighted(rng, [('equal', 3), ('any', 1), ('first', 1)])})
+                            'n2': rng.randrange(cfg['pool']), 'how1': weighted(rng, hows), 'how2': weighted(rng, [('equal', 3), ('any', 1), ('first', 1)]),
+                            'back': rng.random() < 0.35, 'poke': rng.choice([None, None] + list(leafs))})
             elif k == 'subbatch':
                 ops.append({'op': 'subbatch', 'n': rng.randrange(cfg['pool']), 'p': rng.choice(leafs), 'at': rng.randint(0, cfg['pool']),
                             'slot': rng.choice(slots), 'n2': rng.randrange(cfg['pool']), 'how': weighted(rng, [('equal', 4), ('any', 1), ('first', 1)])})
@@ -665,6 +666,7 @@ class DependsWorld:
                 break
             k = op['op']
             own_changed = False
+            stale_poke = False
             desc = k
             before = snapshot()
             try:
@@ -708,21 +710,36 @@ class DependsWorld:
                     if sl not in SLOTS:
                         sl = SLOTS[0]
                     n1, n2 = op['n1'] % len(pool), op['n2'] % len(pool)
+                    was = att[(h, sl)]
+                    alone = was is not None and sum(1 for v in att.values() if v == was) == 1
+                    if op.get('back') and alone:
+                        n2 = was            # ... and put back: the object attached before the batch is attached again at its end
                     if n1 == n2 or h in (n1, n2) or (h != 'P' and (h in reachable(n1) or h in reachable(n2))):
                         continue
-                    if n1 in reachable() or n2 in reachable():
+                    if n1 in reachable() or (n2 in reachable() and n2 != was):
                         continue
-                    if not shape(n1, att[(h, sl)], op.get('how1', 'any')) or not shape(n2, n1, op.get('how2', 'equal')):
+                    if not shape(n1, was, op.get('how1', 'any')) or not shape(n2, n1, op.get('how2', 'equal')):
                         break
                     del log[:]
                     before = snapshot()
+                    poke = op.get('poke') if (alone and was != n1 and h in reachable() | {'P'}) else None
+                    stale_poke = bool(poke) and h != 'P'
                     with param.parameterized.batch_call_watchers(real(h)):
                         setattr(real(h), sl, pool[n1])
+                        if poke:
+                            # the object attached before the batch is modified while it is detached (it may come back)
+                            counter[0] += 1
+                            setattr(pool[was], poke, counter[0])
+                            leaf[was][poke] = counter[0]
+                            out.stats['probe.detached_object_modified_inside_the_batch'] += 1
                         setattr(real(h), sl, pool[n2])
                     att[(h, sl)] = n2
                     ever_attached.update((n1, n2))
                     out.stats['probe.slot_replaced_twice_in_one_batch'] += 1
-                    desc = f"batch: attach N{n1} then N{n2} under {h}.{sl} ({op.get('how1')},{op.get('how2')})"
+                    if n2 == was:
+                        out.stats['probe.slot_swapped_out_and_back_in_one_batch'] += 1
+                    desc = (f"batch: attach N{n1}{', set N%s.%s while detached,' % (was, poke) if poke else ''} then N{n2} under {h}.{sl} "
+                            f"({op.get('how1')},{op.get('how2')})")
                 elif k == 'detach':
                     h = holder(op['at'])
                     sl = op.get('slot', 'sub')
@@ -861,6 +878,18 @@ class DependsWorld:
                     out.stats['dontcare.path_unresolved'] += 1
                     continue
                 out.stats['decided_method_checks'] += 1
+                if stale_poke and n_calls == (2 if changed else 1):
+                    # known finding: the batch is open on a holder below the parent, so the parent learns of the replacement only
+                    # when the batch ends; until then its watchers sit on the replaced object, and modifying that object runs the method
+                    d_ = (f"{desc}: m{mi} depends on {m['deps']}: the object replaced inside a batch opened on the intermediate holder was "
+                          f"modified while detached and ran the method (the parent's watchers follow the replacement only when the holder's "
+                          f"batch ends); values through the current path {b} -> {a}, the method ran {n_calls} times")
+                    from ..kernel import tolerated
+                    if 'C07.detached_object_runs_method_inside_batch_on_intermediate_holder' in tolerated('C07'):
+                        out.known.append(('C07.detached_object_runs_method_inside_batch_on_intermediate_holder', d_))
+                        continue
+                    out.violations.append(('C07.detached_object_runs_method_inside_batch_on_intermediate_holder', step, d_))
+                    break
                 if changed and n_calls == 2:
                     # known finding: the method depends on an attribute itself AND on something reached through it: the direct
                     # dependency and the path have a watcher each, a replacement that changes both runs the method twice
